@@ -53,6 +53,25 @@ def stores_stage(c):
                           i, s[i]['op'], json.dumps(a)[:160], json.dumps(b)[:160]),
                       {'ops': s[:i + 1], 'ram': a, 'sql': b})
           break
+  # directed (real RAM vs real SQL only; the model's trial ids are positive numbers): an update_metadata whose
+  # trial id is not a positive number is refused with the same error on both stores and must leave BOTH unchanged
+  head0 = {'state': 'ACTIVE', 'spec': 0, 'md': []}
+  for bad in ('0', '-3', 'abc'):
+    seq = [{'op': 'createStudy', 'k': ['o', 's'], 'head': head0},
+           {'op': 'updateMetadata', 'k': ['o', 's'], 'study': [['', 'k', 'v']], 'trials': [[bad, [['', 't', 'v']]]]},
+           {'op': 'loadStudy', 'k': ['o', 's']},
+           {'op': 'updateStudy', 'k': ['o', 's'], 'head': dict(head0, state='INACTIVE')},     # a later committing write
+           {'op': 'loadStudy', 'k': ['o', 's']}]
+    a, b = stores.run_real('ram', seq), stores.run_real('sql', seq)
+    c.traces += 2
+    c.count(1, ('stores-malformed-id', bad), kind='store:updateMetadata:malformed-trial-id')
+    for i, (x, y) in enumerate(zip(a, b)):
+      if x != y:
+        c.prop_fail('datastores-differ:updateMetadata-malformed-trial-id',
+                    'update_metadata naming the trial id %r is refused by both datastores (%s), but afterwards step %d (%s) is answered differently: ram=%s sql=%s' % (
+                        bad, a[1], i, seq[i]['op'], json.dumps(x)[:160], json.dumps(y)[:160]),
+                    {'ops': seq[:i + 1], 'ram': x, 'sql': y})
+        break
   # the orphan witness: the flag documents which behaviour the current tree has
   w_ram, w_sql = stores.run_real('ram', seqs[0]), stores.run_real('sql', seqs[0])
   c.flags['sqlCreateTrialChecksStudy'] = (w_sql[0] != 'ok')
